@@ -507,6 +507,7 @@ fn cmd_server(args: &[String], seed: u64, n: u64, out: &str, summary: &str) {
                 "streams" => gen_healthy(&mut rr, sid, true),
                 "faulty" => gen_faulty(&mut rr, sid),
                 "wfault" => gen_wfault(&mut rr, sid),
+                "badcall" => gen_badcall(&mut rr, sid),
                 "hotstream" => gen_hot_stream(&mut rr, sid),
                 "manystreams" => gen_many_streams(&mut rr, sid),
                 "fair" => gen_fair(&mut rr, sid, false),
